@@ -385,7 +385,8 @@ def materialise(el, feed, call):
         truth_csv=el.truth.to_csv(index=False),
         feed_csv=feed.to_csv(index=False),
         feed_dtypes={c: str(t) for c, t in feed.dtypes.items()},
-        pre_file_csv=(el.pre_file.to_csv(index=False) if getattr(el, "pre_file", None) is not None else None),
+        pre_extra_csv=(el.pre_extra.to_csv(index=False) if getattr(el, "pre_extra", None) is not None else None),
+        pre_extra_first=bool(getattr(el, "pre_extra_first", False)),
         call=call,
         meta=el.meta,
     )
@@ -421,8 +422,9 @@ def dematerialise(m):
     truth = _read(m["truth_csv"], {})
     feed = _read(m["feed_csv"], m["feed_dtypes"])
     el = Election(pre, m["config"], m["office"], m["geo_type"], truth, m.get("meta", {}))
-    if m.get("pre_file_csv"):
-        el.pre_file = _read(m["pre_file_csv"], m["pre_dtypes"])
+    if m.get("pre_extra_csv"):
+        el.pre_extra = _read(m["pre_extra_csv"], m["pre_dtypes"])
+        el.pre_extra_first = bool(m.get("pre_extra_first"))
     if el.meta.get("cat_key"):
         make_categorical(el, el.meta["cat_key"])
     if el.meta.get("int_key"):
